@@ -318,7 +318,7 @@ func (j *judge) add(prop, sig, class, msg string, engine string, group []*ReqPla
 	v := Violation{Property: prop, Signature: sig, Class: class, Message: msg, Project: j.tag, Engine: engine, Group: group, Focus: focus.ID, SchedSeed: seed, Outcomes: outs}
 	for e, rs := range j.broken {
 		for r := range rs {
-			if (class == "not-served" || class == "misrouted") && e == engine && r == focus.Expect.Route {
+			if (class == "not-served" || class == "misrouted" || class == "wrong-method") && e == engine && r == focus.Expect.Route {
 				continue // this violation IS that pair's finding
 			}
 			if v.Broken == nil {
@@ -389,35 +389,29 @@ func (j *judge) judgePlan(plan *ReqPlan, o Outcome, group []*ReqPlan, seed uint6
 					fmt.Sprintf("%s %s is not an annotated verb/path but reached %s", plan.Verb, plan.URL, o.Calls[0].Op), o.Engine, group, plan, seed, outs)
 			}
 		default:
-			for _, c := range o.Calls {
-				if c.Op != ex.OpID {
-					j.add("C02", fmt.Sprintf("C02|%s|wrong-method|%s", o.Engine, shapeTags(plan)), "wrong-method",
-						fmt.Sprintf("%s %s should reach %s but reached %s", plan.Verb, plan.URL, ex.OpID, c.Op), o.Engine, group, plan, seed, outs)
+			// every request addressed to an annotated route must be handled by THAT route's handler
+			class, detail := "", ""
+			switch {
+			case o.Class == "not-served":
+				class, detail = "not-served", fmt.Sprintf("the router does not serve it (status %d)", o.Status)
+			case len(o.Calls) > 0 && o.Calls[0].Op != ex.OpID:
+				class, detail = "wrong-method", "it reached "+o.Calls[0].Op
+				if overlapTag(plan) != "" {
+					class = "misrouted"
 				}
+			case overlapTag(plan) != "" && ex.Outcome == "invoked" && plan.Class == "valid" && o.Class != "invoked":
+				class, detail = "misrouted", fmt.Sprintf("the router handed it to another template (outcome %s, status %d)", o.Class, o.Status)
 			}
 			if len(o.Calls) > 1 {
-				j.add("C02", fmt.Sprintf("C02|%s|invoked-twice|%s", o.Engine, shapeTags(plan)), "invoked-twice",
-					fmt.Sprintf("%s %s invoked %d controller methods", plan.Verb, plan.URL, len(o.Calls)), o.Engine, group, plan, seed, outs)
+				j.add("C02", "", "invoked-twice", fmt.Sprintf("%s %s invoked %d controller methods", plan.Verb, plan.URL, len(o.Calls)), o.Engine, group, plan, seed, outs)
 			}
-			if ex.Outcome == "invoked" && plan.Class == "valid" && len(group) == 1 && overlapTag(plan) != "" && o.Class != "not-served" &&
-				(o.Class != "invoked" || o.Calls[0].Op != ex.OpID) {
-				// the plain request to a literal route that overlaps a parameter route did not reach its method:
-				// the router dispatched the path to the other template
-				reached := o.Class
-				if len(o.Calls) > 0 {
-					reached = "method " + o.Calls[0].Op
+			if class != "" {
+				j.add("C02", "", class,
+					fmt.Sprintf("%s %s addresses annotated route %s (template %s) but %s", plan.Verb, plan.URL, ex.OpID, j.routes[ex.Route].Path, detail), o.Engine, group, plan, seed, outs)
+				if len(group) == 1 && plan.BaseRoute == ex.Route && !strings.HasPrefix(plan.Class, "stray") {
+					j.markBroken(o.Engine, ex.Route)
 				}
-				j.add("C02", "", "misrouted",
-					fmt.Sprintf("%s %s addresses annotated route %s (template %s, which overlaps a parameter route of the same verb) but the router handed it to another template: %s, status %d", plan.Verb, plan.URL, ex.OpID, j.routes[ex.Route].Path, reached, o.Status), o.Engine, group, plan, seed, outs)
-				j.markBroken(o.Engine, ex.Route)
-				return
-			}
-			if ex.Outcome == "invoked" && o.Class == "not-served" && plan.Class == "valid" && len(group) == 1 {
-				j.markBroken(o.Engine, ex.Route)
-			}
-			if ex.Outcome == "invoked" && o.Class == "not-served" {
-				j.add("C02", fmt.Sprintf("C02|%s|not-served|%s", o.Engine, shapeTags(plan)), "not-served",
-					fmt.Sprintf("%s %s addresses annotated route %s (template %s) but the router does not serve it (status %d)", plan.Verb, plan.URL, ex.OpID, j.routes[ex.Route].Path, o.Status), o.Engine, group, plan, seed, outs)
+				return // one root cause: the other oracles are not applied to a request the router mis-dispatched
 			}
 		}
 	}
@@ -427,10 +421,12 @@ func (j *judge) judgePlan(plan *ReqPlan, o Outcome, group []*ReqPlan, seed uint6
 	rt := j.routes[ex.Route]
 	// C03 is judged against the route whose method actually ran (if one did): the gate that matters is
 	// that method's. For framework-policy shapes without an invocation the addressed route is not known.
+	otherRouteRan := false
 	if len(o.Calls) > 0 {
 		for ri := range j.routes {
 			if j.proj.OpPrefix+j.routes[ri].OpID == o.Calls[0].Op {
 				rt = j.routes[ri]
+				otherRouteRan = ri != ex.Route
 			}
 		}
 	} else if ex.Policy != "" {
@@ -457,6 +453,9 @@ func (j *judge) judgePlan(plan *ReqPlan, o Outcome, group []*ReqPlan, seed uint6
 				return
 			}
 		}
+	}
+	if otherRouteRan {
+		return // (framework-policy shape) another route's method ran; its own gate was just checked
 	}
 	if ex.Outcome == "refused" {
 		if o.Class == "not-served" {
